@@ -6,6 +6,7 @@ import Claripy.AST.Truth
 import Claripy.AST.ACNorm
 import Claripy.AST.Bits
 import Claripy.AST.IteReloc
+import Claripy.AST.MinMax
 /-! S-expression reader/printer and the `ev` / `fold` / `rules` requests of the line protocol. -/
 namespace Driver.Expr
 open Claripy.AST
@@ -120,11 +121,11 @@ def handleAc (toks : List String) : String :=
     | _, _, _ => "bad-op"
   | _, _ => "bad-op"
 
-/-- `bits <lhs> | <rhs>` : is `lhs ⇒ rhs` a rewrite that only rearranges bits (Concat/Extract/ZeroExt/SignExt)? -/
+/-- `bits <lhs> | <rhs>` : is `lhs ⇒ rhs` a rewrite that only rearranges bits (Concat/Extract/ZeroExt/SignExt/…), or the signed min/max idiom? -/
 def handleBits (toks : List String) : String :=
   let (pre, post) := toks.span (· ≠ "|")
   match parseExpr pre, parseExpr (post.drop 1) with
-  | some lhs, some rhs => if bitsEquiv lhs rhs then "1" else "0"
+  | some lhs, some rhs => if bitsEquiv lhs rhs || minmaxEquiv lhs rhs then "1" else "0"
   | _, _ => "bad-op"
 
 /-- `excavate <sexpr>` / `burrow <sexpr>` : the ITE relocation algorithms (excavate: rule-table constructor, so that intermediate `If` nodes are simplified as `claripy.If` does; burrow: raw constructor) with the `Not` simplifier
